@@ -82,7 +82,7 @@ class C04(Prop):
                 continue
             dt = rng.choice(["int32", "int64", "uint8", "int16"])
             hi = {"int32": 60000, "int64": 4_000_000_000, "uint8": 200, "int16": 300}[dt]
-            n = rng.randint(1, 4)
+            n = rng.randint(1, 6)
             ys = [float(rng.choice([1, 2, 3, rng.randint(1, hi)])) for _ in range(n)]
             zs = [float(rng.choice([1, 2, 5, rng.randint(1, hi)])) for _ in range(n)]
             yield {"stream": "intdtype", "dtype": dt, "kind": kind, "h": h, "level": lv, "y": ys, "z": zs}
@@ -96,7 +96,17 @@ class C04(Prop):
 
             try:
                 sf = sc.make_sf(case["kind"], case["h"], case["level"])
-                per = sf.score_per_obs(np.array(case["y"]).astype(case["dtype"]), np.array(case["z"]).astype(case["dtype"]))
+                ya, za = np.array(case["y"]).astype(case["dtype"]), np.array(case["z"]).astype(case["dtype"])
+                if len(case["y"]) % 2 == 0:
+                    # the same scorer and the same integer arrays were used for other data before and are refilled in place
+                    ya[:], za[:] = ya[::-1] // 2 + 1, za[::-1] // 3 + 2
+                    try:
+                        sf.score_per_obs(ya, za)
+                        sf(ya, za)
+                    except Exception:
+                        pass
+                    ya[:], za[:] = np.array(case["y"]).astype(case["dtype"]), np.array(case["z"]).astype(case["dtype"])
+                per = sf.score_per_obs(ya, za)
                 return {"per_obs": [float(v) for v in np.asarray(per, dtype=float)]}
             except Exception as e:
                 from .core import exc_class
